@@ -238,7 +238,8 @@ class _ReadSourceGenerator:
 
         yield from flush()
 
-        if self.align:
+        if self.align and self.fields:
+            # A structure without fields has no alignment to align to
             yield f"stream.seek(-stream.tell() & (cls.alignment - 1), {io.SEEK_CUR})"
 
     def _generate_structure(self, field: Field) -> Iterator[str]:
